@@ -209,3 +209,120 @@ pub fn run_c15c<B: Backend>(sc: &C15cScenario) -> Outcome {
     sched::end();
     Outcome { obs: h.finish(), violations }
 }
+
+// ---------------------------------------------------------------------
+// Two gets at once: both connections of a pool of two are idle, one of them
+// was left broken / invalid; two threads call get() at the same time, so the
+// two recycling checks (blocking closures = actors) overlap.
+
+pub fn run_c15_two_gets<B: Backend>() -> Outcome {
+    sched::begin();
+    TW.with(|x| *x.borrow_mut() = Some(T::default()));
+    crate::c15::reset_world(true);
+    let variant = choose_free(B::variants());
+    let which = choose_free(2);
+    let pool: Pool<B::M> = B::build(2, variant);
+    let p = pool.clone();
+    // set-up on the controller: blocking closures are run inline, nothing is
+    // interleaved yet
+    sched::set_manual_blocking(true);
+    let nb = Timeouts { wait: Some(std::time::Duration::ZERO), create: None, recycle: None };
+    let mut held: Vec<Object<B::M>> = Vec::new();
+    for _ in 0..2 {
+        let p2 = p.clone();
+        match crate::c15::drive(async move { p2.timeout_get(&nb).await }) {
+            Some(Ok(c)) => held.push(c),
+            _ => bad("first-get-failed", "a get() on a pool with a free slot failed".into()),
+        }
+    }
+    let mut bad_serial = -1i64;
+    if held.len() == 2 {
+        let w: &SyncWrapper<B::Conn> = &held[which];
+        let r = crate::c15::drive(crate::c15::unsafe_static(w.interact(move |conn| {
+            let s = B::ident(conn);
+            if B::mark_broken(conn, s, variant) {
+                s
+            } else {
+                -1
+            }
+        })));
+        if let Some(Ok(s)) = r {
+            bad_serial = s;
+            if s >= 0 {
+                t(|w| {
+                    w.bad.insert(s, true);
+                    w.log.push(format!("broken@{}", s));
+                });
+            }
+        }
+    }
+    trace!("setup: connection {} left bad", bad_serial);
+    // returned in both orders over the two values of `which`
+    drop(held);
+    sched::set_manual_blocking(false);
+    drop(p);
+    for name in ["task1", "task2"] {
+        let p = pool.clone();
+        sched::spawn(name, move || {
+            let nb = Timeouts { wait: Some(std::time::Duration::ZERO), create: None, recycle: None };
+            match sched::block_on(p.timeout_get(&nb), false) {
+                Ok(Ok(c)) => {
+                    let poisoned = {
+                        let w: &SyncWrapper<B::Conn> = &c;
+                        w.is_mutex_poisoned()
+                    };
+                    match ident::<B>(&c) {
+                        Some(s2) => {
+                            t(|w| w.log.push(format!("{} get->{}", name, s2)));
+                            if s2 == bad_serial {
+                                bad("broken-connection-reissued", format!("two gets at once: connection {} which the backend reports as broken / invalid was handed out again", s2));
+                            }
+                        }
+                        None if poisoned => bad("poisoned-connection-reissued", "two gets at once: a poisoned connection was handed out".into()),
+                        None => {}
+                    }
+                    // hold it until the other get has finished as well (capacity 2)
+                    sched::pause("holding the connection");
+                    drop(c);
+                }
+                Ok(Err(_)) => bad("capacity-lost", format!("two gets at once on a pool of two idle connections: {} failed", name)),
+                Err(_) => {}
+            }
+        });
+    }
+    let verdict = sched::run(&RunCfg { horizon: 4000, cancels: false }, || {
+        let mut h = std::collections::hash_map::DefaultHasher::new();
+        t(|w| (w.log.len(), &w.bad).hash(&mut h));
+        sched::sched_fingerprint().hash(&mut h);
+        note_state(h.finish());
+        t(|w| w.viol.is_empty()) && sched::machinery_error().is_none()
+    });
+    let mut machinery = sched::machinery_error();
+    match &verdict {
+        Verdict::Deadlock(d) => bad("deadlock", format!("deadlock: {}", d)),
+        Verdict::Horizon => bad("livelock", "step horizon exceeded".into()),
+        _ => {}
+    }
+    if !matches!(verdict, Verdict::Deadlock(_) | Verdict::Horizon) {
+        let cascade = !t(|w| w.viol.is_empty()) || machinery.is_some();
+        let saved = t(|w| w.viol.clone());
+        let ok = sched::wind_down();
+        if cascade {
+            t(|w| w.viol = saved);
+        } else if !ok {
+            machinery = Some("wind-down incomplete".into());
+        }
+    }
+    drop(pool);
+    let _ = sched::wind_down();
+    crate::c15::reset_world(false);
+    let world = TW.with(|x| x.borrow_mut().take()).unwrap();
+    let mut h = std::collections::hash_map::DefaultHasher::new();
+    (variant, which, &world.log).hash(&mut h);
+    let mut violations = world.viol;
+    if let Some(m) = machinery {
+        violations.push(Violation { property: "MACHINERY".into(), key: "machinery".into(), msg: m });
+    }
+    sched::end();
+    Outcome { obs: h.finish(), violations }
+}
